@@ -9,7 +9,7 @@ from common import (penman, layout, Graph, j_graph, j_tree, j_node, j_triple, py
 # ---------------------------------------------------------------- alphabets
 
 VARS = ['a', 'b', 'c', 'd', 'e', 'x1', 'x2', '_', '_2', 'a2']
-CONCEPTS = ['alpha', 'beta', 'Chase-01', '"str ing"', '"(x"', 'a', 'b', '7', 'have-mod-91', 'include-91',
+CONCEPTS = ['alpha', 'beta', '_', '_2', 'Chase-01', '"str ing"', '"(x"', 'a', 'b', '7', 'have-mod-91', 'include-91',
             'own-01', 'have-03', 'ôter', '中', '_x', '"q~1"', '-', 'have-org-role-91', '٣', 'İ', '0', '1.5',
             '²-norm', '½life', 'Ⅷ-century', '①a', 'ǅungla', 'ʰa', 'e\u0301cole', 'ẞig', 'ﬁn', '\u0301x', 'ª1', '٣x']
 ROLES_PLAIN = [':ARG0', ':ARG1', ':ARG2', ':op1', ':op2', ':op10', ':mod', ':domain', ':quant', ':polarity',
@@ -17,7 +17,8 @@ ROLES_PLAIN = [':ARG0', ':ARG1', ':ARG2', ':op1', ':op2', ':op10', ':mod', ':dom
                ':foo', ':R', ':', ':snt3', ':wiki', ':time', ':location', ':ARG10', ':role', ':employed-by', ':TOP',
                ':consist', ':prep-on-behalf', ':prep-out-of', ':prep-out', ':mode', ':year2', ':year', ':prep-on',
                ':instance', ':ARG0xyz', ':modabc', ':polarity-on', ':quant-if',
-               ':X', ':X-of', ':Y-of', ':Y', ':a', ':b', ':N1', ':op100', ':op99', ':op20', ':op19', ':ARG2']
+               ':X', ':X-of', ':Y-of', ':Y', ':a', ':b', ':N1', ':op100', ':op99', ':op20', ':op19', ':ARG2',
+               ':possessor', ':part-of']
 CONSTS = ['-', '+', '7', '0', '0.0', '-1.5e3', '"a b"', '"x:y(z)"', '"\\"q\\""', '"C:\\\\"', '"e\\\\\\"f"', 'imperative', 'x~y', '"t~1"',
           '"#h"', '"a #b"', '"see #5, ^ x"', '"~/d"', '"~5"', '"say \\"~\\" x"', 'a/b', 'Ω', '"é "', '""', '1e400', 'true', 'null', 'NaN']
 ALNS = ['~1', '~e.2', '~e.1,2', '~E.3', '~x4', '~01', '~2,03', '~3,1', '~e.5,2,4']
@@ -183,6 +184,38 @@ class TreeGen:
         if not self.wf and maybe(rng, self.weird):
             branches.append(('/', rng.choice(CONCEPTS)))       # second concept
         return (var, branches)
+
+
+def permute_vars(rng, node):
+    """the same tree with its variables permuted among themselves (definitions and references,
+    alignment suffixes kept); written independently of penman.tree"""
+    vs = []
+
+    def collect(n):
+        if n[0] is not None and n[0] not in vs:
+            vs.append(n[0])
+        for _, t in n[1]:
+            if isinstance(t, tuple):
+                collect(t)
+    collect(node)
+    if len(vs) < 2:
+        return node
+    ws = list(vs)
+    rng.shuffle(ws)
+    ren = dict(zip(vs, ws))
+
+    def go(n):
+        out = []
+        for r, t in n[1]:
+            if isinstance(t, tuple):
+                out.append((r, go(t)))
+            elif r != '/' and isinstance(t, str) and t.partition('~')[0] in ren:
+                base, tl, al_ = t.partition('~')
+                out.append((r, ren[base] + tl + al_))
+            else:
+                out.append((r, t))
+        return (ren.get(n[0], n[0]), out)
+    return go(node)
 
 
 def gen_tree(rng, **kw):
@@ -373,6 +406,9 @@ CUSTOM_MODELS = [
     {'roles': [['lit', ':X'], ['lit', ':X-of'], ['lit', ':a'], ['lit', ':b']],     # X / X-of collision: not ModelWf
      'norm': [[':a', ':b'], [':b', ':c']], 'reifs': []},
     {'noop': True, 'roles': [['lit', ':ARG0'], ['lit', ':consist-of']], 'norm': [[':mod-of', ':domain']], 'reifs': []},
+    # normalisation keys that the role table itself defines (a still-accepted alias, a defined -of role)
+    {'roles': [['lit', ':poss'], ['lit', ':possessor'], ['lit', ':part-of'], ['lit', ':ARG1'], ['digit', ':ARG']],
+     'norm': [[':possessor', ':poss'], [':part-of', ':ARG1']], 'reifs': [[':poss', 'own-01', ':ARG1', ':ARG0']]},
 ]
 
 
